@@ -163,11 +163,27 @@ def build_controller(cfg):
     return C
 
 
-def run(cfg, u0, t0, Tend, deep=True):
+class RunBudgetExceeded(Exception):
+    pass
+
+
+def run(cfg, u0, t0, Tend, deep=True, budget=30):
+    """one exact run of the real controller; raises RunBudgetExceeded after `budget` seconds of wall time
+    (exact rationals of a run that does not contract grow without bound)"""
+    import signal
+
+    def onalarm(signum, frame):
+        raise RunBudgetExceeded('exact run exceeded %ss' % budget)
     C = build_controller(cfg)
     Recorder.log = []
     Recorder.deep = deep
-    uend, stats = C.run(u0=ex.FracVec(u0), t0=F(t0), Tend=F(Tend))
+    old = signal.signal(signal.SIGALRM, onalarm)
+    signal.setitimer(signal.ITIMER_REAL, budget)
+    try:
+        uend, stats = C.run(u0=ex.FracVec(u0), t0=F(t0), Tend=F(Tend))
+    finally:
+        signal.setitimer(signal.ITIMER_REAL, 0)
+        signal.signal(signal.SIGALRM, old)
     log = Recorder.log
     Recorder.log = None
     return C, uend, stats, log
